@@ -634,11 +634,11 @@ def resolve_anchor(text, anchor):
                 if cnt == k:
                     return s_ if where == 'before' else e_
         raise LostAnchor("lost anchor: %s (found %d matching statements)" % (anchor, cnt))
-    if a[0] == 'return':
+    if a[0] in ('return', 'break'):
         k = int(a[1])
-        pos = [mm.start() for mm in re.finditer(r'(?<![A-Za-z0-9_])return(?![A-Za-z0-9_])', m)]
+        pos = [mm.start() for mm in re.finditer(r'(?<![A-Za-z0-9_])' + a[0] + r'(?![A-Za-z0-9_])', m)]
         if k > len(pos):
-            raise LostAnchor("lost anchor: return %d (have %d)" % (k, len(pos)))
+            raise LostAnchor("lost anchor: %s %d (have %d)" % (a[0], k, len(pos)))
         return pos[k - 1]
     if a[0] == 'macro':
         # k-th lone ';' line (rustc leaves one behind each expanded statement macro)
